@@ -5,6 +5,7 @@ import (
 	"encoding/binary"
 	"errors"
 	"fmt"
+	"io"
 	"log"
 	"net"
 	"net/http"
@@ -238,6 +239,12 @@ func (zns *ZnPMServer) readNamedPipe(pipe *pipe) {
 		var pid int
 		// read packet
 		if err := ReadDataFromNamedPipe(pipeReader, buf); err != nil {
+			// EOF: no worker holds the pipe at the moment (e.g. the last worker has just
+			// exited and its replacement is not up yet) - wait for the next one
+			if errors.Is(err, io.EOF) {
+				time.Sleep(10 * time.Millisecond)
+				continue
+			}
 			log.Fatalf("[PARENT] read buffer failed: %s", err)
 			continue
 		}
